@@ -1,5 +1,6 @@
 import Ysgo.Lemmas.MarkupTail
 import Ysgo.Lemmas.MarkupPropsSim
+import Ysgo.Lemmas.MarkupRepl
 import Ysgo.Props.C15
 /-!
 # C13 — markup parsing recovers the plain text and exactly the enclosed ranges
@@ -321,5 +322,97 @@ example : (expected exampleProps).map (fun r => showAttrs r.attrs) =
 #print axioms parse_render_props_partial
 #print axioms parse_render_core_error
 #print axioms parse_render_core_text
+
+/-! ## C13.2 (all value kinds) and C13.3 (replacement markers): every well-formed chunk list
+
+`wellFormed cs` (`MarkupSpec.chunkOk` on every chunk) is the whole grammar the property quantifies over: text, escaped
+brackets, open / close / close-all / self-closing markers with the shorthand value and any number of properties of every
+value kind — integers, **decimals**, booleans, quoted strings, bare words — and the replacement markers `nomarkup`,
+`select`, `plural`, `ordinal`, self-closing (`.selfClose` with such a name) or open with raw text (any characters, as long
+as no close tag of the marker occurs in it: `noCloseTag`) closed by `[/name]` or `[/]` (`.repl`). -/
+
+/-- C13.3 `parse_render_replacement` (and C13.2 with decimals): for **every well-formed chunk list** for which the
+specification prescribes a result, parsing the rendered line yields exactly that result — the text with every replacement
+marker replaced by what its definition prescribes (`MarkupSpec.replacement`: `nomarkup` ↦ its raw text verbatim, `select`
+↦ the case named by `value`, `plural` ↦ `one` / `other`, `ordinal` ↦ the case of the English ordinal table, `%` ↦ the
+value, `\\%` ↦ `%`), the attributes with typed property values (a decimal `i.ds` is the double nearest to it), positions,
+lengths and source positions (raw text uncounted) — from every incoming parser state -/
+theorem parse_render_replacement (st : ParserState) (cs : List Chunk) (hw : wellFormed cs = true) (r : ParseResult)
+    (he : expected cs = some r) : (parseRunes st (render cs)).2 = .ok r := by
+  simp only [wellFormed, List.all_eq_true] at hw
+  exact parse_render_of_sim st cs (fun c h => stepSim_all _ c (hw c h)) r he
+
+/-- and `TextForAttribute` returns the enclosed text — for a replacement marker closed by name or by `[/]` that is the
+replacement text -/
+theorem parse_render_replacement_text (st : ParserState) (cs : List Chunk) (hw : wellFormed cs = true)
+    (r : ParseResult) (he : expected cs = some r) : ∀ a ∈ r.attrs, textForAttribute r a = .ok (enclosed r a) := by
+  intro a ha
+  have h := parse_render_replacement st cs hw r he
+  have hp : parseRunes st (render cs) = ((parseRunes st (render cs)).1, .ok r) := by rw [← h]
+  exact textForAttribute_of_range r a (attributes_in_range st _ (render cs) r hp a ha)
+
+/-- C13.2 `parse_render_props` at full strength on the result side: the chunk kinds of `parse_render_props_partial` with
+decimal values allowed as well (`isPropsChunk` minus its `notDec` clauses is `chunkOk` on lists without replacement
+markers; such lists are a special case of `parse_render_replacement`) -/
+theorem parse_render_props (st : ParserState) (cs : List Chunk) (hw : wellFormed cs = true)
+    (hnr : ∀ c ∈ cs, match c with
+      | .selfClose n _ _ _ => isReplName n = false | .close n _ => isReplName n = false
+      | .repl _ _ _ _ _ _ _ => False | _ => True)
+    (r : ParseResult) (he : expected cs = some r) : (parseRunes st (render cs)).2 = .ok r :=
+  parse_render_replacement st cs hw r he
+
+/-- the link behind decimal values, stated on its own: on `<int>.<digits>` as the parser assembles it from the parsed
+integer `n < 2^63` and the fraction digits as written, `strconv.ParseFloat` returns the specification's
+`nearest n frac` = the correctly rounded quotient `(n·10^k + frac) / 10^k` (`F64.roundQuot`; `F64.roundQuot_total` of the
+F64 library says it is a faithful rounding) — `[a=1.05]` is 1.05, not 1.5 -/
+theorem decimal_value (n : Nat) (frac : List Char) (hn : n < 2 ^ 63) (hf : ∀ c ∈ frac, isAsciiDigit c = true)
+    (hne : frac ≠ []) :
+    F64.parseFloat (F64.itoa (n : Int) ++ "." ++ String.ofList frac) = .val (nearest n frac) :=
+  parseFloat_dec n frac (by rw [← P63_eq]; exact hn) hf hne
+
+/-! ### Non-vacuity for C13.2 / C13.3
+
+`I have [plural value=3 one="% apple" other="% apples"/], she is [ordinal value=22 one="%st" two="%nd" few="%rd"
+other="%th" /], [select value=f m="he" f="she"/] said [nomarkup]a [b]c[/b] \[ [/ x][/nomarkup]![a=1.05]x[/a]
+[plural value=1 one="one 100\% %"]ignored[/]` — replacement markers of every kind, self-closing, closed by name and by
+`[/]`, raw text that contains markers and a backslash, the `\%` escape, a decimal shorthand value. -/
+
+def exampleRepl : List Chunk :=
+  [.text "I have ".toList,
+   .selfClose "plural".toList none [("value".toList, .int 0 3), ("one".toList, .quoted "% apple".toList),
+     ("other".toList, .quoted "% apples".toList)] [],
+   .text ", she is ".toList,
+   .selfClose "ordinal".toList none [("value".toList, .int 0 22), ("one".toList, .quoted "%st".toList),
+     ("two".toList, .quoted "%nd".toList), ("few".toList, .quoted "%rd".toList), ("other".toList, .quoted "%th".toList)]
+     [[], [], [], [], [], [], [], [], [], [], [], [], [], [], [], [], " ".toList],
+   .text ", ".toList,
+   .selfClose "select".toList none [("value".toList, .bare "f".toList), ("m".toList, .quoted "he".toList),
+     ("f".toList, .quoted "she".toList)] [],
+   .text " said ".toList,
+   .repl "nomarkup".toList none [] [] "a [b]c[/b] \\[ [/ x]".toList true [],
+   .text "!".toList,
+   .opn "a".toList (some (.dec 0 1 "05".toList)) [] [], .text "x".toList, .close "a".toList [],
+   .text " ".toList,
+   .repl "plural".toList none [("value".toList, .int 0 1), ("one".toList, .quoted "one 100\\% %".toList)] []
+     "ignored".toList false []]
+
+example : wellFormed exampleRepl = true := by decide +kernel
+example : (expected exampleRepl).map (fun r => r.text) =
+    some "I have 3 apples, she is 22nd, she said a [b]c[/b] \\[ [/ x]!x one 100% 1" := by decide +kernel
+example : (expected exampleRepl).map (fun r => showAttrs (r.attrs.filter (fun a => a.name == "a" || a.name == "nomarkup"))) =
+    some "nomarkup@39+19@166{};a@59+1@188{a=f:N:4607407598781385933}" := by decide +kernel
+/-- the error side of the specification is inhabited by replacement markers too: no case for the value -/
+example : expected [.selfClose "select".toList none [("value".toList, .bare "x".toList), ("y".toList, .int 0 1)] []] = none := by
+  decide +kernel
+
+#print axioms parse_render_replacement
+#print axioms parse_render_replacement_text
+#print axioms parse_render_props
+#print axioms decimal_value
+#print axioms ordinalCase_nat
+#print axioms ordinalCase_go
+#print axioms replacePlaceholders_no_percent
+#print axioms replacePlaceholders_subst
+#print axioms process_eq
 
 end Ysgo.Markup
